@@ -9,7 +9,8 @@
 (* of the walk but not of the script (the real vacuum decides on its own).      *)
 EXTENDS PolConcP, TLC, Json
 
-CONSTANTS GenDepth, NTxn, GK
+CONSTANTS GenDepth, NTxn, GK,
+          GV    \* the walk reclaims a lost slot GV ticks after the proxy timeout (the engine's vacuum period), so that replays seldom branch off
 
 VARIABLES hist, used, n
 
@@ -42,14 +43,15 @@ GPick == \E out \in 0..(GK - 1) :
     /\ UNCHANGED <<used, n>>
 
 GAdv == \E d \in {1, 2, 4} :
-    /\ Advance(d)
+    /\ Advance(d) /\ \A s \in slots : now + d <= s.dl + GV
     /\ hist' = Append(hist, [op |-> "adv", d |-> d])
     /\ UNCHANGED <<used, n>>
 
-GExpire == \E s \in slots : Expire(s) /\ UNCHANGED <<hist, used, n>>
+Due == {s \in slots : now >= s.dl + GV}
+GExpire == \E s \in Due : Expire(s) /\ UNCHANGED <<hist, used, n>>
 
-\* every third step is a clock step (or a reclaim the clock is waiting for), so that walks reach the expiry of lost slots
-GNext == IF Len(hist) % 3 = 2 THEN (GAdv \/ GExpire) ELSE (GTake \/ GRel \/ GPick)
+\* a reclaim that is due comes first; every third event is a clock step, so that walks reach the expiry of lost slots
+GNext == IF Due # {} THEN GExpire ELSE IF Len(hist) % 3 = 2 THEN GAdv ELSE (GTake \/ GRel \/ GPick)
 
 GSpec == GInit /\ [][GNext]_<<pvars, hist, used, n>>
 Emit == (Len(hist) = GenDepth) => PrintT(<<"VH", ToJson(hist)>>)
